@@ -507,6 +507,7 @@ def c03_rf11(run):
     rf_iface.rf177(run)
     rf_keys.rf182(run)
     rf_abi.rf187(run)
+    rf_iface.rf193(run)
     rf_iface.rf132(run)
     rf_iface.rf147(run)
     rf_iface.rf151(run)
